@@ -191,6 +191,34 @@ Theorem C04_fillpositive_near180_refuted : forall thr feps,
 Proof. exact fillpositive_near180. Qed.
 Print Assumptions C04_fillpositive_near180_refuted.
 
+(* set_qform stores q / sqrt(q @ q) (repair of S-C04d).  In exact arithmetic this is the identity on
+   the unit eigenvector (used inside C04_qform_roundtrip_ideal).  Under the STANDARD ROUNDING MODEL —
+   every stored component is the exact normalised component times (1 + delta), |delta| <= u — the
+   quantity fillpositive computes, w2 = 1 - (b^2 + c^2 + d^2), is within (2u + u^2)(1 - w^2) of the
+   true w^2; hence for an exact 180 degree rotation (w = 0) the stored quaternion meets the snap
+   threshold whenever 2u + u^2 < |thr|, and w is recovered as 0 — no ValueError.  Instance: u = eps64
+   (twice the float64 unit roundoff, leaving room for the MAX_FLOAT evaluation) and the NIfTI-2
+   threshold 3 eps64. *)
+Theorem C04_stored_quaternion_w2_bound : forall q u d1 d2 d3,
+  qnorm2 q = 1 -> 0 <= u -> Rabs d1 <= u -> Rabs d2 <= u -> Rabs d3 <= u ->
+  let b := qx q * (1 + d1) in let c := qy q * (1 + d2) in let d := qz q * (1 + d3) in
+  Rabs (1 - (b * b + c * c + d * d) - qw q * qw q) <= (2 * u + u * u) * (1 - qw q * qw q).
+Proof. exact stored_quat_w2. Qed.
+Print Assumptions C04_stored_quaternion_w2_bound.
+
+Theorem C04_normalised_quaternion_meets_threshold : forall thr q u d1 d2 d3,
+  qnorm2 q = 1 -> qw q = 0 -> 0 <= u -> 2 * u + u * u < Rabs thr ->
+  Rabs d1 <= u -> Rabs d2 <= u -> Rabs d3 <= u ->
+  let b := qx q * (1 + d1) in let c := qy q * (1 + d2) in let d := qz q * (1 + d3) in
+  fillpositive thr b c d = Some (mkQt 0 b c d).
+Proof. exact stored_quat_snaps. Qed.
+Print Assumptions C04_normalised_quaternion_meets_threshold.
+
+Theorem C04_nifti2_threshold_margin :
+  2 * (/ 4503599627370496) + (/ 4503599627370496) * (/ 4503599627370496) < Rabs (- 3 * / 4503599627370496).
+Proof. exact stored_quat_snaps_nifti2. Qed.
+Print Assumptions C04_nifti2_threshold_margin.
+
 (* the algebraic fact mat2quat relies on: a unit q is an eigenvector of K(quat2mat q) for
    the eigenvalue 1 *)
 Theorem C04_K_eigen : forall feps q, feps <= 1 -> qnorm2 q = 1 ->
